@@ -123,7 +123,7 @@ def removeChild (s : Store) (parent : Ino) (name : Bytes) : Store :=
 def deleteNode (s : Store) (i : Ino) : Store :=
   match s.get i with
   | some (.dir m _) => s.set i (.dir m [])
-  | some (.file m d nl id) => let nl' := nl - 1; s.set i (.file m (if nl' = 0 then [] else d) nl' id)
+  | some (.file m d nl id) => s.set i (.file m d (nl - 1) id)
   | some (.symlink m _) => s.set i (.symlink m [])
   | none => s
 
@@ -159,7 +159,7 @@ def truncData (d : Bytes) (size : Nat) : Bytes :=
 
 def mkdir (s : Store) (v : View) (name : Bytes) (perm : Nat) : Store × Out :=
   if name.isEmpty then (s, .err .ENOENT) else
-  let r := searchNode s v name .eval
+  let r := searchNode s v name .lstat
   if r.err != .noent || !r.pi.isLast then (s, .err r.err.toErr) else
   if !dirPerm s r.parent (omWrite ||| omLookup) v then (s, .err .EACCES) else
   let part := partOf r.pi
@@ -213,6 +213,7 @@ def openFile (s : Store) (v : View) (vid : Nat) (name : Bytes) (flag perm : Nat)
       -- the append position is evaluated at each Write (see File model); `at` starts at 0
       (s1, .ok (mk c 0))
     | some (.dir m _) =>
+      if om &&& omExcl != 0 then (s, .error .EEXIST) else
       if om &&& omWrite != 0 then (s, .error .EISDIR) else
       if !checkPerm m om v then (s, .error .EACCES) else (s, .ok (mk c 0))
     | _ => (s, .ok (mk c 0))
@@ -392,7 +393,8 @@ def rename (s : Store) (v : View) (oldpath newpath : Bytes) : Store × Out :=
       | some nc =>
         if n.err == .noent then move s else
         match s.get nc with
-        | some (.file _ _ _ _) => move (deleteNode s nc)
+        | some (.file _ _ _ _) => if nc == oc then (s, .ok .unit) else move (deleteNode s nc)
+        | some (.symlink _ _) => move (deleteNode s nc)
         | _ => (s, .err .EEXIST)
     | none => (s, .panic)
 
